@@ -32,8 +32,8 @@ var rules = map[string]string{
 		"after every message, every block object known to the harness, the chain or the round is judged: notarized => #distinct round miners with an individually verified signature on its hash >= threshold; " +
 		"distinct = (n, path, variant, mix class, #valid relative to threshold, notarized?) tuples",
 	"C41": "real StartLFBTicketWorker on a world chain (node.Self a miner in half of the children, a sharder in the other half); seeded streams of inputs: tickets POSTed to the real LFBTicketHandler " +
-		"(signer in {current sharder, current miner, registered sharder outside the current magic block, unknown node} x signature in {valid, other key, replayed with altered round/hash, empty, garbage} x round in {lower, equal, +1..+5, far ahead}), " +
-		"bursts of several tickets before the worker runs, local BroadcastLFBTicket and the miner's own unsigned bump; after each input is consumed GetLatestLFBTicket is compared with the previous answer; " +
+		"(signer in {current sharder, current miner, registered sharder outside the current magic block, unknown node} x signature in {valid, other key, replayed with altered round/hash, empty, garbage} x round in {lower, equal, +1..+5, far ahead, boundary: MinInt64, MinInt64+1, MinInt64+L-1, MinInt64+L, MinInt64+L+1, -1, 0, L-1, L, L+1, 2^32, 2^53 for the reported round L}), " +
+		"bursts of several tickets before the worker runs, local BroadcastLFBTicket and the miner's own unsigned bump; sweeps of every boundary round over every path; a last episode per worker that delivers MaxInt64-1 and MaxInt64 and then everything again; after each input is consumed GetLatestLFBTicket is compared with the previous answer; " +
 		"distinct = (self type, input kind, signer class, signature class, round relation, adopted?) tuples",
 }
 
@@ -148,6 +148,7 @@ func finishParent(run *mon.Run, prop, tier string) {
 		run.RequireMin("c41.adoption_judged", 40)
 		run.RequireMin("c41.valid_current_sharder_higher_adopted", 10)
 		run.RequireMin("c41.lower_or_equal_round_valid_sharder_offered", 10)
+		c41Require(run) // boundary-round classes (c41.go)
 		run.Assume("an input has settled when the worker's input channels are empty and a following GetLatestLFBTicket exchange (served by the same single goroutine) returned; a wait above 10 s makes the run inconclusive")
 		run.Assume("the node's own tickets (initial ticket, BroadcastLFBTicket, the miner's unsigned bump through AddReceivedLFBTicket) are local inputs: they are judged for monotonicity only, authenticity is judged for tickets that arrived through LFBTicketHandler")
 		run.Assume("signature validity is recomputed with BLS0ChainScheme.Verify under the key the harness generated for the claimed signer; membership is read from the sharder pool of the chain's current magic block")
